@@ -50,6 +50,23 @@ def _cases(tier):
             yield {"mode": "graph", "g": spec, "merge": merge}
     for h in A.histories([["2", a, b] for a in A.TWO_FIELD for b in A.TWO_FIELD], 2 if tier == "quick" else 3):
         yield {"mode": "two", "h": h}
+    # mode 'merge': multisets of already simplified (inferred) field types, combined the way ModelRegistry._merge does:
+    # every operand is the type of field `a` of its own model, inferred from its own sample history; the models' field sets go
+    # through merge_field_sets + ONE optimize_type pass, which must already give the normal form (a second pass changes nothing)
+    small = [[n] for n in A.ATOM_NAMES] + [[n, A.ABSENT] for n in A.ATOM_NAMES] + [[n, "null"] for n in A.ATOM_NAMES if n != "null"]
+    wide = [[n] for n in vals] + [h for h in A.histories(atoms + [A.ABSENT], 2, 2)]
+    if tier == "quick":
+        for hl in itertools.combinations_with_replacement(wide, 2):
+            yield {"mode": "merge", "hl": [list(h) for h in hl]}
+        for hl in itertools.combinations_with_replacement(small, 3):
+            yield {"mode": "merge", "hl": [list(h) for h in hl]}
+    else:
+        wide2 = [[n] for n in vals] + [h for h in A.histories(vals + [A.ABSENT], 2, 2) if any(x in atoms or x == A.ABSENT for x in h)]
+        for hl in itertools.combinations_with_replacement(wide2, 2):
+            yield {"mode": "merge", "hl": [list(h) for h in hl]}
+        for hl in itertools.combinations_with_replacement(wide, 3):
+            if sum(len(h) for h in hl) <= 4:
+                yield {"mode": "merge", "hl": [list(h) for h in hl]}
 
 
 def _samples(case):
@@ -65,6 +82,55 @@ def _samples(case):
     raise ValueError(m)
 
 
+def _merge_samples(hl):
+    """root samples whose field x<i> holds the i-th model: sample j carries the j-th value of every history"""
+    out = []
+    for j in range(max(len(h) for h in hl)):
+        out.append({f"x{i}": A.obj1(h[j]) for i, h in enumerate(hl) if j < len(h)})
+    return out
+
+
+def _execute_merge(case):
+    from json_to_models.dynamic_typing import ModelMeta
+    hl = case["hl"]
+    shape = sorted("M(" + ",".join(A.symbol_name(s) for s in h) + ")" for h in hl)
+    viol = []
+    try:
+        b = pipeline.build(_merge_samples(hl), types=pipeline.ALL_TYPES, do_merge=False, names=False)
+    except Exception as e:
+        return {"obs": ["exc"], "viol": [], "execs": 1, "trans": 1, "outcome": "raises_elsewhere:" + core.exc_site(e), "show": str(e)[:100]}
+    root = b.root.type
+    operands = [root.type[f"x{i}"] for i in range(len(hl))]
+    models = []
+    for t in operands:
+        while ir.kind(t) == "opt":
+            t = t.type
+        if ir.kind(t) != "ptr":
+            # an empty object is a mapping, not a model: nothing to merge
+            return {"obs": ["not_models"], "viol": [], "execs": 1, "trans": 1, "outcome": "operand_not_a_model", "show": ""}
+        models.append(t.type)
+    stage = "merge_field_sets"
+    try:
+        fs = b.gen.merge_field_sets([m.type for m in models])
+        mm = ModelMeta(fs, "9Z")
+        stage = "first_pass"
+        b.gen.optimize_type(mm)
+        c1 = ir.canon_graph([mm])
+        for clause, path in ir.nf_violations(mm):
+            viol.append(core.viol("nf:" + clause, "after_merge_of_simplified_types", shape, f"{path} in {c1}"))
+        stage = "second_pass"
+        b.gen.optimize_type(mm)
+        c2 = ir.canon_graph([mm])
+        if c2 != c1:
+            viol.append(core.viol("second_pass_changes_type", "merge_of_simplified_types", shape, f"{c1} -> {c2}"))
+    except Exception as e:
+        viol.append(core.viol("simplification_raises", "merge:" + core.exc_site(e), shape, f"{stage}: {type(e).__name__}: {e}"))
+        return {"obs": ["exc"], "viol": viol, "execs": 2, "trans": 2, "outcome": "raises_in_simplification", "show": str(e)[:100]}
+    show = repr(c1)[:300]
+    return {"obs": [core.digest(show)], "viol": viol, "execs": 3, "trans": 3, "outcome": "ok", "show": show,
+            "nontrivial": core.digest(show) if ("union" in show or "opt" in show) else None}
+
+
 def _shape(case):
     if "h" in case:
         return [A.symbol_name(s) for s in case["h"]] + (["late_registration"] if case.get("late") else [])
@@ -72,6 +138,8 @@ def _shape(case):
 
 
 def execute(case):
+    if case["mode"] == "merge":
+        return _execute_merge(case)
     shape = _shape(case)
     viol, obs = [], []
     types = pipeline.ALL_TYPES
@@ -127,7 +195,7 @@ def execute(case):
 def run(tier, seed):
     r = core.Run(PROP, tier, seed)
     r.rule = ("E1: all value sequences/multisets (all sequences of <=3 over 48 values as samples and multisets of 3 as one list quick; <=3 over values, all multisets of 4 over 46 values and of 5 over atoms thorough) fed through generate() as samples of one field and as one list value, plus graph inputs "
-              "through merge_models; non-trivial = distinct canonical result containing a union or optional")
+              "through merge_models; multisets of 2-3 already simplified field types (each inferred from its own history) through merge_field_sets + one pass, as ModelRegistry._merge combines them; non-trivial = distinct canonical result containing a union or optional")
     r.bounds = {"tier": tier, "values": len(A.VALUE_NAMES), "atoms": len(A.ATOM_NAMES)}
     r.assumptions = ["operands are restricted to types the real _detect_type produces for JSON values (inferred types)",
                      "DTuple is never produced by the generator and is out of scope"]
